@@ -36,3 +36,26 @@ Lemma replay_entries_leave_only_through_the_cleaner :
 Proof. repeat split; vm_compute; reflexivity. Qed.
 Lemma registerRandom_only_inserts : only_inserts "server.State.registerRandom" "State.UsedRandom" = true.
 Proof. vm_compute. reflexivity. Qed.
+
+(* ---- where the replay decision is taken.  Model/Replay.v and Model/Dispatch.v decide "seen before?" by the
+   one atomic test-and-set (register) and do so BEFORE anything else is done with the packet: in
+   AuthFirstPacket the call of registerRandom precedes decryptClientInfo, and nobody else looks into the
+   cache (a separate read-only "is it there?" followed by a later insertion is a window for simultaneous
+   presentations of one packet, however atomic each half is). *)
+Fixpoint index_of_ev (p : ev -> bool) (l : list ev) : option nat :=
+  match l with
+  | [] => None
+  | e :: t => if p e then Some O else match index_of_ev p t with Some n => Some (S n) | None => None end
+  end.
+Definition before_in (f : string) (a b : ev -> bool) : bool :=
+  match index_of_ev a (events_of f), index_of_ev b (events_of f) with
+  | Some i, Some j => Nat.ltb i j
+  | _, _ => false
+  end.
+Definition accessed_only_in (pkg v : string) (allowed : list string) : bool :=
+  forallb (fun fe : string * list ev =>
+             negb (prefix pkg (fst fe)) || mem_s (fst fe) allowed || negb (existsb (fun e : ev => seqb (snd e) v) (snd fe))) fn_events.
+Lemma replay_decided_by_the_test_and_set_before_decryption :
+  before_in "server.AuthFirstPacket" (is_call "State.registerRandom") (is_call "decryptClientInfo") = true
+  /\ accessed_only_in "server." "State.UsedRandom" ["server.State.registerRandom"; "server.State.UsedRandomCleaner"; "server.InitState"] = true.
+Proof. split; vm_compute; reflexivity. Qed.
